@@ -12,10 +12,10 @@ import (
 
 // TypeSpec is one column type as written plus its catalog rendering.
 type TypeSpec struct {
-	SQL      string // as written in the DDL
-	Class    string // int, uint, bool, bit, decimal, float, char, text, binary, blob, date, time, datetime, timestamp, year, enum, set, json, geom
-	ColType  string // expected information_schema.COLUMNS.COLUMN_TYPE (lower case MySQL spelling)
-	DataType string // expected DATA_TYPE
+	SQL      string   // as written in the DDL
+	Class    string   // int, uint, bool, bit, decimal, float, char, text, binary, blob, date, time, datetime, timestamp, year, enum, set, json, geom
+	ColType  string   // expected information_schema.COLUMNS.COLUMN_TYPE (lower case MySQL spelling)
+	DataType string   // expected DATA_TYPE
 	Members  []string // enum/set members (unescaped)
 	Fsp      int      // fractional seconds precision of temporal types
 	Len      int      // declared length of char/binary types
@@ -50,10 +50,10 @@ type IdxCol struct {
 
 // Index is a secondary index.
 type Index struct {
-	Name     string
-	Kind     string // "", "UNIQUE", "FULLTEXT", "SPATIAL"
-	Cols     []IdxCol
-	Comment  string
+	Name    string
+	Kind    string // "", "UNIQUE", "FULLTEXT", "SPATIAL"
+	Cols    []IdxCol
+	Comment string
 }
 
 // Check is a CHECK constraint.
@@ -76,15 +76,15 @@ type FK struct {
 
 // Table is one generated CREATE TABLE.
 type Table struct {
-	Name    string
-	Cols    []*Col
-	PK      []string // table-level PRIMARY KEY (empty when inline or none)
-	Indexes []*Index
-	Checks  []*Check
-	FKs     []*FK
-	Collate string // table COLLATE ("" = default)
-	Charset string
-	Comment string
+	Name         string
+	Cols         []*Col
+	PK           []string // table-level PRIMARY KEY (empty when inline or none)
+	Indexes      []*Index
+	Checks       []*Check
+	FKs          []*FK
+	Collate      string // table COLLATE ("" = default)
+	Charset      string
+	Comment      string
 	AutoIncStart int
 }
 
@@ -261,10 +261,10 @@ func (t *Table) PKCols() []string {
 
 // GenOpts selects the palette.
 type GenOpts struct {
-	Rich      bool // exotic types, identifiers, defaults, comments (C22); false = plain palette with catalog expectations (C43)
-	WithFK    bool // a parent table `parent` (id INT PRIMARY KEY, k VARCHAR(10) NOT NULL, UNIQUE KEY uk (k)) exists
-	MaxCols   int
-	NameHint  string
+	Rich     bool // exotic types, identifiers, defaults, comments (C22); false = plain palette with catalog expectations (C43)
+	WithFK   bool // a parent table `parent` (id INT PRIMARY KEY, k VARCHAR(10) NOT NULL, UNIQUE KEY uk (k)) exists
+	MaxCols  int
+	NameHint string
 	// Known-defect input classes (findings/C22.md) are outside the core domain unless asked for:
 	EnumSetDefaults      bool // literal DEFAULT on ENUM/SET columns (F26)
 	CheckOnBacktickIdent bool // CHECK over a column whose name contains a backtick (F27)
